@@ -85,7 +85,7 @@ def sigmaMax : Float := Float.ofBits Gen.sigmaMaxBits.toUInt64
 def samplerZ (chk : Bool) (mu sigma sigmaMin : Float) : Nat → List Nat → Nat → Res (Option (Int × Nat))
   | 0, _, _ => .ok none
   | fuel + 1, stream, used =>
-    if stream.length < 17 then .ok none else do
+    if (stream.drop 16).isEmpty then .ok none else do   -- fewer than 17 bytes left
       let inv2sig := 1.0 / (2.0 * sigmaMax * sigmaMax)
       let isigma := 1.0 / sigma
       let dss := 0.5 * isigma * isigma
